@@ -74,6 +74,8 @@ def run(ctx):
         for l in range(nl):
             for i in range(D):
                 exv = sum(ex["Linv"][l][m] * ex["u"][m][i] for m in range(nl))
-                scale = sum(abs(ex["Linv"][l][m] * ex["u"][m][i]) for m in range(nl)) + Fraction(1, 10 ** 300)
+                # u itself is a cancelling sum: scale by the size of its terms
+                uabs = [sum(abs(x[e] * r["sig"][e][m] * r["shifts"][e][i]) for e in range(n)) for m in range(nl)]
+                scale = sum(abs(ex["Linv"][l][m]) * uabs[m] for m in range(nl)) + Fraction(1, 10 ** 300)
                 if abs(sh[l][i] - exv) > SC.tol_cond(nl, ex["cond"]) * scale:
                     ctx.violation(f"Metadata.shift[{l}][{i}] differs from (L^-1 u)", S.small_req(s), expected=float(exv), observed=float(sh[l][i])); break
